@@ -423,7 +423,19 @@ pub fn accepts(prop: &str, v: &Viol, ops: &[OpRec]) -> bool {
             "close_left_value_alive",
             "waiter_survived_close",
             "not_released",
-        ]) || (p == "stuck_illegit" && v.detail.contains("the channel is closed")),
+        ]) || (p == "stuck_illegit" && v.detail.contains("the channel is closed"))
+            // the fate of values of operations that were pending at, or begun after, a close
+            || (in_list(LEDGER_ALL) && {
+                let close_inv = ops
+                    .iter()
+                    .filter(|o| o.k == K::Close && o.res == Res::Unit)
+                    .map(|o| o.inv)
+                    .min();
+                match (close_inv, opk) {
+                    (Some(ci), Some(o)) => o.ret == 0 || o.ret > ci,
+                    _ => false,
+                }
+            }),
         "C11" => {
             in_list(&[
                 "disconnect_while_handle_alive",
@@ -433,6 +445,18 @@ pub fn accepts(prop: &str, v: &Viol, ops: &[OpRec]) -> bool {
                 "recv_after_disconnect",
                 "recv_after_failed_send",
             ]) || (p == "stuck_illegit" && v.detail.contains("handle is left"))
+                // senders released by / failing after the disconnect keep or drop their value once
+                || (in_list(LEDGER_ALL)
+                    && opk
+                        .map(|o| {
+                            o.k.is_send()
+                                && matches!(
+                                    o.res,
+                                    Res::Err(crate::interp::E::ReceiveClosed) | Res::Err(crate::interp::E::Closed)
+                                )
+                                && !ops.iter().any(|c| c.k == K::Close && c.res == Res::Unit)
+                        })
+                        .unwrap_or(false))
         }
         "C12" => in_list(&["count_mismatch", "quiescent_observer_mismatch"]),
         "C13" => {
